@@ -1330,11 +1330,13 @@ impl<'a, 'b, W: Write> Serializer for &'a mut YamlSerializer<'b, W> {
         _variant_index: u32,
         variant: &'static str,
     ) -> Result<()> {
-        // If we are in a mapping value position, insert the deferred space after ':'
-        self.write_space_if_pending()?;
         if self.tagged_enums {
+            // If we are in a mapping value position, insert the deferred space after ':'
+            self.write_space_if_pending()?;
             self.serialize_tagged_scalar(name, variant)
         } else {
+            // `serialize_str` writes the deferred space itself and needs to know that it is in
+            // value position (indentation of an automatically folded long name).
             self.serialize_str(variant)
         }
     }
